@@ -94,18 +94,18 @@ def normalise_ops(cfg, ops):
 
 def compare(ctx, cases, on_case=None):
     """cases: list of (cfg, ops). Returns list of (cfg, ops, real_lines, model_lines, first_diff_index)."""
-    cases = [(cfg, normalise_ops(cfg, ops)) for cfg, ops in cases]
+    cases = [(c[0], normalise_ops(c[0], c[1]), (c[2] if len(c) > 2 else {})) for c in cases]
     lines, spans = [], []
-    for cfg, ops in cases:
+    for cfg, ops, _kw in cases:
         ml = E.model_lines(cfg, ops)
         spans.append((len(lines), len(lines) + len(ml)))
         lines += ml
     replies = ctx.lean_driver("Engine", lines)
     bad = []
-    for (cfg, ops), (a, b) in zip(cases, spans):
+    for (cfg, ops, kw), (a, b) in zip(cases, spans):
         model = [E.canon_model_line(x) for x in replies[a:b]]
         try:
-            real = E.run_real(cfg, ops)
+            real = E.run_real(cfg, ops, **kw)
         except AssertionError as e:   # the token decoding itself failed: non-integer release etc.
             real = [f"harness-assertion: {e}"]
         diff = next((i for i, (r, m) in enumerate(zip(real, model)) if r != m), None)
